@@ -54,6 +54,7 @@ func replay(args []string) {
 	out := fs.String("out", "", "trace file (ndjson)")
 	workers := fs.Int("workers", 16, "parallel replays")
 	seed := fs.Int64("seed", 1, "seed for concretisation")
+	offset := fs.Int("offset", 0, "number added to the scenario index (trace ids of later batches)")
 	_ = fs.Parse(args)
 	tdir, err := os.MkdirTemp("", "vh-tls-")
 	if err != nil {
@@ -80,7 +81,7 @@ func replay(args []string) {
 		if len(sc.Bytes()) == 0 {
 			continue
 		}
-		jobs = append(jobs, job{len(jobs) + 1, append([]byte(nil), sc.Bytes()...)})
+		jobs = append(jobs, job{*offset + len(jobs) + 1, append([]byte(nil), sc.Bytes()...)})
 	}
 	results := make([]result, len(jobs))
 	ch := make(chan job)
@@ -90,7 +91,7 @@ func replay(args []string) {
 		go func() {
 			defer wg.Done()
 			for j := range ch {
-				results[j.idx-1] = runOne(*family, j, *seed)
+				results[j.idx-1-*offset] = runOne(*family, j, *seed)
 			}
 		}()
 	}
